@@ -310,34 +310,64 @@ Proof.
   unfold agree_in, agree_out, agree_intra in *. cbn. rewrite H1. repeat split; reflexivity.
 Qed.
 
-Lemma decomp cfg : forall l a ai ao ax, agree_in a ai -> agree_out a ao -> agree_intra a ax ->
+(** the entries a row adds to the table row id -> (unique_id, notes) depend, like its transactions, on the counter only *)
+Lemma step_meta cfg a b n r a1 b1 : match r with SIn _ => a_counter a = a_counter b | _ => True end ->
+  expect_row cfg a n r = Ok a1 -> expect_row cfg b n r = Ok b1 ->
+  exists new, a_meta a1 = a_meta a ++ new /\ a_meta b1 = a_meta b ++ new.
+Proof.
+  intros Hc E1 E2. destruct r as [s|s|s]; cbn [expect_row] in E1, E2.
+  - destruct (raw_of_in cfg n s) as [raw|]; [|discriminate E1]. destruct (mk_in raw) as [tx|]; cbn [bind] in E1, E2; [|discriminate E1].
+    destruct (0 <? i_crypto_fee tx).
+    + destruct (split_in tx) as [tx'|]; cbn [bind] in E1, E2; [|discriminate E1]. rewrite Hc in E1.
+      destruct (fee_out tx (a_counter b - 1)) as [o|]; cbn [bind] in E1, E2; [|discriminate E1].
+      injection E1 as <-. injection E2 as <-. cbn [a_meta]. eexists. split; reflexivity.
+    + injection E1 as <-. injection E2 as <-. cbn [a_meta]. eexists. split; reflexivity.
+  - destruct (raw_of_out cfg n s) as [raw|]; [|discriminate E1]. destruct (mk_out raw) as [tx|]; cbn [bind] in E1, E2; [|discriminate E1].
+    injection E1 as <-. injection E2 as <-. cbn [a_meta]. eexists. split; reflexivity.
+  - destruct (raw_of_intra cfg n s) as [raw|]; [|discriminate E1]. destruct (mk_intra raw) as [tx|]; cbn [bind] in E1, E2; [|discriminate E1].
+    injection E1 as <-. injection E2 as <-. cbn [a_meta]. eexists. split; reflexivity.
+Qed.
+
+Definition meta_split (a ai ao ax : acc) : Prop := Permutation (a_meta a) (a_meta ai ++ a_meta ao ++ a_meta ax).
+
+Lemma decomp cfg : forall l a ai ao ax, agree_in a ai -> agree_out a ao -> agree_intra a ax -> meta_split a ai ao ax ->
   match expect_list cfg a l with
   | Ok a' => exists ai' ao' ax',
       expect_list cfg ai (filter (is_tab TabIn) l) = Ok ai' /\ expect_list cfg ao (filter (is_tab TabOut) l) = Ok ao' /\
-      expect_list cfg ax (filter (is_tab TabIntra) l) = Ok ax' /\ agree_in a' ai' /\ agree_out a' ao' /\ agree_intra a' ax'
+      expect_list cfg ax (filter (is_tab TabIntra) l) = Ok ax' /\ agree_in a' ai' /\ agree_out a' ao' /\ agree_intra a' ax' /\
+      meta_split a' ai' ao' ax'
   | Err _ => (exists e, expect_list cfg ai (filter (is_tab TabIn) l) = Err e) \/
              (exists e, expect_list cfg ao (filter (is_tab TabOut) l) = Err e) \/
              (exists e, expect_list cfg ax (filter (is_tab TabIntra) l) = Err e)
   end.
 Proof.
-  induction l as [|[n r] l IH]; intros a ai ao ax Hi Ho Hx.
-  - cbn. exists ai, ao, ax. do 3 (split; [reflexivity|]). split; [exact Hi|]. split; [exact Ho|exact Hx].
+  induction l as [|[n r] l IH]; intros a ai ao ax Hi Ho Hx HM.
+  - cbn. exists ai, ao, ax. do 3 (split; [reflexivity|]). split; [exact Hi|]. split; [exact Ho|]. split; [exact Hx|exact HM].
   - unfold agree_in, agree_out, agree_intra in Hi, Ho, Hx.
     destruct r as [s|s|s]; cbn [filter is_tab snd fst srow_tab table_eqb expect_list].
     + pose proof (step_in cfg a ai n s Hi) as HS.
-      destruct (expect_row cfg a n (SIn s)) as [a1|e1], (expect_row cfg ai n (SIn s)) as [ai1|e2]; cbn [both] in HS; try contradiction.
+      destruct (expect_row cfg a n (SIn s)) as [a1|e1] eqn:EA, (expect_row cfg ai n (SIn s)) as [ai1|e2] eqn:EB; cbn [both] in HS; try contradiction.
       * destruct HS as (K1 & K2 & K3 & _ & _). unfold agree_out, agree_intra in K2, K3.
-        apply IH; [exact K1|unfold agree_out; congruence|unfold agree_intra; congruence].
+        destruct (step_meta cfg a ai n (SIn s) a1 ai1 (proj2 (proj2 Hi)) EA EB) as (new & M1 & M2).
+        apply IH; [exact K1|unfold agree_out; congruence|unfold agree_intra; congruence|].
+        unfold meta_split in *. rewrite M1, M2. eapply perm_trans; [apply Permutation_app_tail; exact HM|].
+        rewrite <- !app_assoc. apply Permutation_app_head. rewrite app_assoc. apply Permutation_app_comm.
       * left. exists e2. reflexivity.
     + pose proof (step_out cfg a ao n s Ho) as HS.
-      destruct (expect_row cfg a n (SOut s)) as [a1|e1], (expect_row cfg ao n (SOut s)) as [ao1|e2]; cbn [both] in HS; try contradiction.
+      destruct (expect_row cfg a n (SOut s)) as [a1|e1] eqn:EA, (expect_row cfg ao n (SOut s)) as [ao1|e2] eqn:EB; cbn [both] in HS; try contradiction.
       * destruct HS as (K1 & (K2 & K3 & K4) & K5 & _ & _). unfold agree_intra in K5.
-        apply IH; [unfold agree_in; repeat split; destruct Hi as (? & ? & ?); congruence|exact K1|unfold agree_intra; congruence].
+        destruct (step_meta cfg a ao n (SOut s) a1 ao1 I EA EB) as (new & M1 & M2).
+        apply IH; [unfold agree_in; repeat split; destruct Hi as (? & ? & ?); congruence|exact K1|unfold agree_intra; congruence|].
+        unfold meta_split in *. rewrite M1, M2. eapply perm_trans; [apply Permutation_app_tail; exact HM|].
+        rewrite <- !app_assoc. do 2 apply Permutation_app_head. apply Permutation_app_comm.
       * right. left. exists e2. reflexivity.
     + pose proof (step_intra cfg a ax n s Hx) as HS.
-      destruct (expect_row cfg a n (SIntra s)) as [a1|e1], (expect_row cfg ax n (SIntra s)) as [ax1|e2]; cbn [both] in HS; try contradiction.
+      destruct (expect_row cfg a n (SIntra s)) as [a1|e1] eqn:EA, (expect_row cfg ax n (SIntra s)) as [ax1|e2] eqn:EB; cbn [both] in HS; try contradiction.
       * destruct HS as (K1 & (K2 & K3 & K4) & K5 & _ & _). unfold agree_out in K5.
-        apply IH; [unfold agree_in; repeat split; destruct Hi as (? & ? & ?); congruence|unfold agree_out; congruence|exact K1].
+        destruct (step_meta cfg a ax n (SIntra s) a1 ax1 I EA EB) as (new & M1 & M2).
+        apply IH; [unfold agree_in; repeat split; destruct Hi as (? & ? & ?); congruence|unfold agree_out; congruence|exact K1|].
+        unfold meta_split in *. rewrite M1, M2. eapply perm_trans; [apply Permutation_app_tail; exact HM|].
+        rewrite <- !app_assoc. apply Permutation_refl.
       * right. right. exists e2. reflexivity.
 Qed.
 
@@ -433,27 +463,79 @@ Qed.
 Lemma sim_refl a : sim a a.
 Proof. unfold sim. auto. Qed.
 
+(** ... and its number enters the table row id -> (unique_id, notes) as the key of the row's entry *)
+Lemma renumber_row_meta cfg rho a b n n' r a1 b1 : (forall x, x <= 0 -> rho x = x) -> rho n = n' ->
+  a_counter a = a_counter b -> a_counter a <= 1 -> expect_row cfg a n r = Ok a1 -> expect_row cfg b n' r = Ok b1 ->
+  a_counter a1 = a_counter b1 /\ a_counter a1 <= 1 /\
+  exists new, a_meta a1 = a_meta a ++ new /\ a_meta b1 = a_meta b ++ map (rn_meta rho) new.
+Proof.
+  intros Hfix Hn Hc Hle E1 E2. destruct r as [s|s|s]; cbn [expect_row] in E1, E2.
+  - rewrite (raw_of_in_row cfg n n' s) in E2. destruct (raw_of_in cfg n s) as [raw|]; cbn [option_map] in E2; [|discriminate E1].
+    rewrite mk_in_row in E2. destruct (mk_in raw) as [tx|]; cbn [rn_res bind] in E1, E2; [|discriminate E1].
+    change (i_crypto_fee (rn_in (fun _ => n') tx)) with (i_crypto_fee tx) in E2. destruct (0 <? i_crypto_fee tx).
+    + rewrite split_in_row in E2. destruct (split_in tx) as [tx'|]; cbn [rn_res bind] in E1, E2; [|discriminate E1].
+      rewrite fee_out_row_indep in E2. rewrite Hc in E1.
+      destruct (fee_out tx (a_counter b - 1)) as [o|]; cbn [bind] in E1, E2; [|discriminate E1].
+      injection E1 as <-. injection E2 as <-. cbn [a_counter a_meta]. split; [reflexivity|]. split; [lia|].
+      eexists. split; [reflexivity|]. cbn [map]. unfold rn_meta. cbn [fst snd]. rewrite Hn, (Hfix (a_counter b - 1)) by lia. reflexivity.
+    + injection E1 as <-. injection E2 as <-. cbn [a_counter a_meta]. split; [exact Hc|]. split; [exact Hle|].
+      eexists. split; [reflexivity|]. cbn [map]. unfold rn_meta. cbn [fst snd]. rewrite Hn. reflexivity.
+  - rewrite (raw_of_out_row cfg n n' s) in E2. destruct (raw_of_out cfg n s) as [raw|]; cbn [option_map] in E2; [|discriminate E1].
+    rewrite mk_out_row in E2. destruct (mk_out raw) as [tx|]; cbn [rn_res bind] in E1, E2; [|discriminate E1].
+    injection E1 as <-. injection E2 as <-. cbn [a_counter a_meta]. split; [exact Hc|]. split; [exact Hle|].
+    eexists. split; [reflexivity|]. cbn [map]. unfold rn_meta. cbn [fst snd]. rewrite Hn. reflexivity.
+  - rewrite (raw_of_intra_row cfg n n' s) in E2. destruct (raw_of_intra cfg n s) as [raw|]; cbn [option_map] in E2; [|discriminate E1].
+    rewrite mk_intra_row in E2. destruct (mk_intra raw) as [tx|]; cbn [rn_res bind] in E1, E2; [|discriminate E1].
+    injection E1 as <-. injection E2 as <-. cbn [a_counter a_meta]. split; [exact Hc|]. split; [exact Hle|].
+    eexists. split; [reflexivity|]. cbn [map]. unfold rn_meta. cbn [fst snd]. rewrite Hn. reflexivity.
+Qed.
+
+Lemma renumber_list_meta cfg rho : (forall x, x <= 0 -> rho x = x) -> forall l l' a b a1 b1,
+  map snd l = map snd l' -> map rho (map fst l) = map fst l' ->
+  a_counter a = a_counter b -> a_counter a <= 1 -> a_meta b = map (rn_meta rho) (a_meta a) ->
+  expect_list cfg a l = Ok a1 -> expect_list cfg b l' = Ok b1 -> a_meta b1 = map (rn_meta rho) (a_meta a1).
+Proof.
+  intros Hfix. induction l as [|[n r] l IH]; intros [|[n' r'] l'] a b a1 b1 Hs Hr Hc Hle HM E1 E2; cbn [map fst snd] in Hs, Hr; try discriminate Hs.
+  - cbn in E1, E2. injection E1 as <-. injection E2 as <-. exact HM.
+  - injection Hs as -> Hs. injection Hr as Hn Hr. cbn [expect_list fst snd] in E1, E2.
+    destruct (expect_row cfg a n r') as [a'|] eqn:EA; [|discriminate E1]. destruct (expect_row cfg b n' r') as [b'|] eqn:EB; [|discriminate E2].
+    destruct (renumber_row_meta cfg rho a b n n' r' a' b' Hfix Hn Hc Hle EA EB) as (Hc' & Hle' & new & M1 & M2).
+    apply (IH l' a' b' a1 b1 Hs Hr Hc' Hle'); [|exact E1|exact E2]. rewrite M1, M2, HM, map_app. reflexivity.
+Qed.
+
 (** two row lists holding, per table type, the same typed rows in the same order *)
 Lemma reorder_lists cfg c L1 L2 a1 :
   (forall T, map snd (filter (is_tab T) L1) = map snd (filter (is_tab T) L2)) ->
-  expect_list cfg (acc0 c) L1 = Ok a1 -> exists a2, expect_list cfg (acc0 c) L2 = Ok a2 /\ sim a1 a2.
+  expect_list cfg (acc0 c) L1 = Ok a1 ->
+  exists a2, expect_list cfg (acc0 c) L2 = Ok a2 /\ sim a1 a2 /\
+    forall rho, (forall x, x <= 0 -> rho x = x) -> c <= 1 ->
+      (forall T, map rho (map fst (filter (is_tab T) L1)) = map fst (filter (is_tab T) L2)) ->
+      Permutation (a_meta a2) (map (rn_meta rho) (a_meta a1)).
 Proof.
   intros HT E1. set (z := acc0 c) in *.
   assert (Zi : agree_in z z) by (unfold agree_in; auto). assert (Zo : agree_out z z) by reflexivity. assert (Zx : agree_intra z z) by reflexivity.
-  pose proof (decomp cfg L1 z z z z Zi Zo Zx) as D1. rewrite E1 in D1.
-  destruct D1 as (ai1 & ao1 & ax1 & Fi1 & Fo1 & Fx1 & (Ai1 & Ai1' & Ai1'') & Ao1 & Ax1).
+  assert (Zm : meta_split z z z z) by (unfold meta_split; cbn; constructor).
+  pose proof (decomp cfg L1 z z z z Zi Zo Zx Zm) as D1. rewrite E1 in D1.
+  destruct D1 as (ai1 & ao1 & ax1 & Fi1 & Fo1 & Fx1 & (Ai1 & Ai1' & Ai1'') & Ao1 & Ax1 & M1).
   pose proof (renumber_list cfg _ _ z z (HT TabIn) (sim_refl z)) as Ri. rewrite Fi1 in Ri.
   pose proof (renumber_list cfg _ _ z z (HT TabOut) (sim_refl z)) as Ro. rewrite Fo1 in Ro.
   pose proof (renumber_list cfg _ _ z z (HT TabIntra) (sim_refl z)) as Rx. rewrite Fx1 in Rx.
   destruct (expect_list cfg z (filter (is_tab TabIn) L2)) as [ai2|] eqn:Fi2; cbn [both] in Ri; [|contradiction].
   destruct (expect_list cfg z (filter (is_tab TabOut) L2)) as [ao2|] eqn:Fo2; cbn [both] in Ro; [|contradiction].
   destruct (expect_list cfg z (filter (is_tab TabIntra) L2)) as [ax2|] eqn:Fx2; cbn [both] in Rx; [|contradiction].
-  pose proof (decomp cfg L2 z z z z Zi Zo Zx) as D2. rewrite Fi2, Fo2, Fx2 in D2.
+  pose proof (decomp cfg L2 z z z z Zi Zo Zx Zm) as D2. rewrite Fi2, Fo2, Fx2 in D2.
   destruct (expect_list cfg z L2) as [a2|e].
   - exists a2. split; [reflexivity|].
-    destruct D2 as (ai2' & ao2' & ax2' & [= <-] & [= <-] & [= <-] & (Ai2 & Ai2' & Ai2'') & Ao2 & Ax2).
-    destruct Ri as (Si & _ & _ & Sa & Sc). destruct Ro as (_ & So & _). destruct Rx as (_ & _ & Sx & _).
-    unfold agree_out, agree_intra in *. unfold sim. rewrite Ai1, Ai2, Ao1, Ao2, Ax1, Ax2, Ai1', Ai2', Ai1'', Ai2''. auto.
+    destruct D2 as (ai2' & ao2' & ax2' & [= <-] & [= <-] & [= <-] & (Ai2 & Ai2' & Ai2'') & Ao2 & Ax2 & M2).
+    split.
+    + destruct Ri as (Si & _ & _ & Sa & Sc). destruct Ro as (_ & So & _). destruct Rx as (_ & _ & Sx & _).
+      unfold agree_out, agree_intra in *. unfold sim. rewrite Ai1, Ai2, Ao1, Ao2, Ax1, Ax2, Ai1', Ai2', Ai1'', Ai2''. auto.
+    + intros rho Hfix Hc HR. unfold meta_split in M1, M2.
+      assert (Z0 : a_meta z = map (rn_meta rho) (a_meta z)) by reflexivity.
+      pose proof (renumber_list_meta cfg rho Hfix _ _ z z ai1 ai2 (HT TabIn) (HR TabIn) eq_refl Hc Z0 Fi1 Fi2) as Qi.
+      pose proof (renumber_list_meta cfg rho Hfix _ _ z z ao1 ao2 (HT TabOut) (HR TabOut) eq_refl Hc Z0 Fo1 Fo2) as Qo.
+      pose proof (renumber_list_meta cfg rho Hfix _ _ z z ax1 ax2 (HT TabIntra) (HR TabIntra) eq_refl Hc Z0 Fx1 Fx2) as Qx.
+      eapply perm_trans; [exact M2|]. rewrite Qi, Qo, Qx, <- !map_app. apply Permutation_map, Permutation_sym. exact M1.
   - exfalso. destruct D2 as [(e' & H)|[(e' & H)|(e' & H)]]; discriminate H.
 Qed.
 
@@ -546,6 +628,21 @@ Proof.
   - rewrite <- app_assoc. apply Permutation_app_head. exact IH.
   - rewrite <- app_assoc. eapply perm_trans; [apply Permutation_app_swap_app|]. apply Permutation_app_head. exact IH.
   - rewrite app_assoc. eapply perm_trans; [apply Permutation_app_swap_app|]. apply Permutation_app_head. rewrite <- app_assoc. exact IH.
+Qed.
+
+Lemma fst_number_from : forall l n, map fst (number_from n l) = zseq n (length l).
+Proof. induction l as [|x l IH]; intros n; cbn; [reflexivity|]. rewrite IH. reflexivity. Qed.
+Lemma table_eqb_code a b : table_eqb a b = (tab_code a =? tab_code b).
+Proof. destruct a, b; reflexivity. Qed.
+Lemma numbered_rownos cfg asset T : forall bl n, wf_blocks cfg asset n bl ->
+  map fst (filter (is_tab T) (numbered n bl)) = gen_rownos (sel_tab T) n bl.
+Proof.
+  induction bl as [|b bl IH]; intros n W; [reflexivity|]. cbn [wf_blocks] in W. destruct W as [Wb W].
+  cbn [numbered gen_rownos]. rewrite filter_app, map_app. f_equal; [|exact (IH _ W)].
+  rewrite (filter_number_from (b_tab b) T).
+  - unfold sel_tab. rewrite table_eqb_code. destruct (tab_code (b_tab b) =? tab_code T); [|reflexivity].
+    rewrite fst_number_from, map_length. reflexivity.
+  - intros r Hr. apply in_map_iff in Hr. destruct Hr as (rj & <- & Hrj). exact (proj1 (wb_rows_tab _ _ _ _ Wb rj Hrj)).
 Qed.
 
 (** ** 3.6 the renaming: the k-th data row of a table in the first sheet goes to the k-th data row of that table in the second *)
@@ -663,7 +760,7 @@ Proof.
   assert (HT : forall T, map snd (filter (is_tab T) (numbered 1 bl1)) = map snd (filter (is_tab T) (numbered 1 bl2))).
   { intros T. rewrite (numbered_rows_of cfg asset T bl1 1 W1), (numbered_rows_of cfg asset T bl2 1 W2).
     apply rows_of_perm; [exact Hsame|]. rewrite map_map. exact ND. }
-  destruct (reorder_lists cfg c _ _ a1 HT E1) as (a2 & E2 & Hsim).
+  destruct (reorder_lists cfg c _ _ a1 HT E1) as (a2 & E2 & Hsim & Hmeta).
   assert (EB2 : expect_blocks cfg (acc0 c) 1 bl2 = Ok a2) by (rewrite expect_blocks_list; exact E2).
   exists (parsed_of a2). split; [unfold expected; rewrite EB2; reflexivity|].
   destruct Hsim as (Si & So & Sx & Sa & Sc).
@@ -703,7 +800,7 @@ Proof.
   { intros x Hx. unfold parsed_rows, parsed_of in Hx. cbn [pa_ins pa_outs pa_intras] in Hx. rewrite map_app, RA1, RB1, RC1 in Hx.
     rewrite !in_app_iff in Hx. rewrite !in_app_iff. destruct Hx as [Hx|[[Hx|Hx]|Hx]]; try tauto.
     right. apply in_map_iff in Hx. destruct Hx as (o & <- & Ho). exact (Hart o Ho). }
-  exists rho. unfold renamed_by, parsed_of. cbn [pa_ins pa_outs pa_intras pa_counter]. split; [|split; [|split; [|split]]].
+  exists rho. unfold renamed_by, parsed_of. cbn [pa_ins pa_outs pa_intras pa_counter pa_meta]. split; [|split; [|split; [|split; [|split]]]].
   - constructor; cbn [pa_ins pa_outs pa_intras].
     + exact Hfix.
     + intros r Hr Hp. destruct (Hrows r Hr) as [H|H]; [exact (proj2 (Hpos r H))|lia].
@@ -720,6 +817,8 @@ Proof.
     + rewrite <- Sa. symmetry. apply rn_out_fix. intros o Ho. apply Hfix. exact (Hart o Ho).
   - apply rebuild_intra; [exact Sx|]. rewrite RC1, RC2, MC. reflexivity.
   - symmetry. exact Sc.
+  - apply (Hmeta rho Hfix Hc). intros T. rewrite (numbered_rownos cfg asset T bl1 1 W1), (numbered_rownos cfg asset T bl2 1 W2).
+    destruct T; [exact MA|exact MB|exact MC].
 Qed.
 
 (** ... stated on the parser: the two rendered sheets parse to results that are equal up to row ids *)
@@ -757,7 +856,7 @@ Theorem same_up_to_rows_forget p1 p2 : same_up_to_rows p1 p2 ->
   map fg_intra (pa_intras p1) = map fg_intra (pa_intras p2) /\ pa_counter p1 = pa_counter p2 /\
   filter (fun o => o_row o <=? 0) (pa_outs p1) = filter (fun o => o_row o <=? 0) (pa_outs p2).
 Proof.
-  intros (rho & TR & Hi & Ho & Hx & Hc). rewrite Hi, Ho, Hx, Hc, !map_map. do 4 (split; [reflexivity|]).
+  intros (rho & TR & Hi & Ho & Hx & Hc & _). rewrite Hi, Ho, Hx, Hc, !map_map. do 4 (split; [reflexivity|]).
   rewrite (filter_map_in (rn_out rho) (fun o => o_row o <=? 0) (fun o => o_row o <=? 0)).
   - symmetry. apply rn_out_fix. intros o Hin. apply filter_In in Hin. apply (tr_fix _ _ TR). lia.
   - intros o Hin. cbn [rn_out o_row]. destruct (Z_le_gt_dec (o_row o) 0) as [Hle|Hgt].
